@@ -424,7 +424,7 @@ def run(ctx):
     om = prog.module("iodata.overlap")
     co = prog.func("iodata.overlap.compute_overlap")
     ica = prog.func("iodata.convert.iter_cart_alphabet")
-    if any(ica in cs.callees for cs in co.calls):
+    if any(ica in cs.callees for g_ in [co] + [h for h in prog.callees_closure([co]) if h.module is co.module] for cs in g_.calls):
         h2 = ce.global_value(prog.module("iodata.convert"), "HORTON2_CONVENTIONS")
         if all(h2.get((l, "c")) == cart_labels(l) for l in range(8)):
             ctx.ok("R1", "compute_overlap enumerates Cartesians with iter_cart_alphabet = the alphabetical order assumed for the table columns", co.where)
@@ -433,7 +433,7 @@ def run(ctx):
     else:
         ctx.violate("R1", "compute_overlap no longer enumerates Cartesian functions with iter_cart_alphabet", co, co.node, construct="cartesian enumeration")
     # tfs[l] indexed by the shell's angular momentum, transposed on the column side
-    tf_uses = [n for n in co.own_nodes() if isinstance(n, ast.Subscript) and isinstance(n.value, ast.Name) and n.value.id == "tfs"]
+    tf_uses = [n for g_ in [co] + [h for h in prog.callees_closure([co]) if h.module is co.module] for n in g_.own_nodes() if isinstance(n, ast.Subscript) and isinstance(n.value, ast.Name) and n.value.id == "tfs"]
     if len(tf_uses) >= 2:
         ctx.ok("R1", f"tfs[...] applied on both sides ({len(tf_uses)} uses)", co.where)
     else:
